@@ -55,6 +55,10 @@ func (c RuleForCheck) Meta() CheckMeta {
 }
 
 func (c RuleForCheck) String() string {
+	if c.key == RuleForKeepFiringFor {
+		// The for and keep_firing_for checks of one rule block are two instances, even with the same limits.
+		return fmt.Sprintf("%s(%s:%s:%s)", RuleForCheckName, c.key, output.HumanizeDuration(c.minFor), output.HumanizeDuration(c.maxFor))
+	}
 	return fmt.Sprintf("%s(%s:%s)", RuleForCheckName, output.HumanizeDuration(c.minFor), output.HumanizeDuration(c.maxFor))
 }
 
